@@ -239,7 +239,17 @@ class Interp(object):
 
     def ev_Name(self, e, fr):
         if e.id in fr.env:
-            return fr.env[e.id]
+            v = fr.env[e.id]
+            # a value chosen by an earlier test, read where the outcome of that test is a fact: the branch's value
+            while isinstance(v, Phi) and isinstance(v.guard, Guard) and self.guards:
+                keys = {g.key() for g in self.guards if isinstance(g, Guard)}
+                if v.guard.key() in keys:
+                    v = v.a
+                elif v.guard.neg().key() in keys:
+                    v = v.b
+                else:
+                    break
+            return v
         if e.id == 'self':
             return fr.self_role
         if e.id in ('True', 'False', 'None'):
@@ -378,6 +388,8 @@ class Interp(object):
         return Str(out)
 
     def ev_Attribute(self, e, fr):
+        if isinstance(e.value, ast.Name) and e.value.id == 'self' and ('self.' + e.attr) in fr.env:
+            return fr.env['self.' + e.attr]          # a field list this function has appended to (see `rebind`)
         base = self.ev(e.value, fr)
         a = e.attr
         if isinstance(base, P):
@@ -548,6 +560,13 @@ class Interp(object):
             return Guard(Cond('attr', v.role, v.attr))
         if isinstance(v, P):
             return Guard(Cond('truthy', v))
+        if isinstance(v, Phi) and isinstance(v.guard, Guard):
+            # a flag set differently by the two outcomes of an earlier test is that test
+            ta, tb = self.truth(v.a, e), self.truth(v.b, e)
+            if isinstance(ta, bool) and isinstance(tb, bool):
+                if ta == tb:
+                    return ta
+                return v.guard if ta else v.guard.neg()
         return Guard(Cond('opaque', unparse(e)))
 
     def compare(self, e, fr):
@@ -814,6 +833,8 @@ class Interp(object):
     def rebind(self, target, value, fr):
         if isinstance(target, ast.Name):
             fr.env[target.id] = value
+        elif isinstance(target, ast.Attribute) and isinstance(target.value, ast.Name) and target.value.id == 'self':
+            fr.env['self.' + target.attr] = value
 
     def join_terms(self, lst, sep=None):
         """create_equation_from_terms / ''.join : algebraic reading = sum of the items"""
@@ -900,20 +921,44 @@ class Interp(object):
         if nm in self.EMITTING:
             # an argument whose value was chosen by an earlier branch: the call is recorded once per branch, under the
             # condition of that branch (the same effects as when the call is written inside both branches)
-            for a in list(args) + list(kw.values()):
-                if isinstance(a, ast.Name) and isinstance(fr.env.get(a.id), Phi) and isinstance(fr.env[a.id].guard, Guard) and \
-                        getattr(fr.env[a.id], '_join', False):
-                    phi = fr.env[a.id]
-                    res = NONE
-                    for val, g in ((phi.a, phi.guard), (phi.b, phi.guard.neg())):
-                        fr.env[a.id] = val
-                        self.guards.append(g)
+            def namelike(v):
+                # a variable name (literal text with code / parameter holes): the ledger reads a choice between two names
+                # as one guarded name; anything else (a converted term, a flag, None) is a choice between two bookings
+                if isinstance(v, Phi):
+                    return namelike(v.a) and namelike(v.b)
+                if isinstance(v, P):
+                    return True
+                if not isinstance(v, Str):
+                    return False
+                for h in v.holes():
+                    if h.kind == 'phi':
+                        if not (namelike(h.args[1]) and namelike(h.args[2])):
+                            return False
+                    elif h.kind not in ('param', 'code', 'fullcode', 'currency', 'elem'):
+                        return False
+                return True
+
+            def is_join(v):
+                return isinstance(v, Phi) and isinstance(v.guard, Guard) and getattr(v, '_join', False) and not namelike(v)
+            names = [n.id for a in list(args) + list(kw.values()) for n in ast.walk(a)
+                     if isinstance(n, ast.Name) and is_join(fr.env.get(n.id))]
+            if names:
+                g = fr.env[names[0]].guard
+                same = {k: v for k, v in fr.env.items() if is_join(v) and v.guard.key() == g.key()}
+                res = NONE
+                try:
+                    for pick, guard in (('a', g), ('b', g.neg())):
+                        for k, v in same.items():
+                            fr.env[k] = getattr(v, pick)
+                        self.guards.append(guard)
                         try:
                             res = self.intrinsic(nm, role, e, fr, skip_first)
                         finally:
                             self.guards.pop()
-                            fr.env[a.id] = phi
-                    return res
+                finally:
+                    for k, v in same.items():
+                        fr.env[k] = v
+                return res
 
         def A(i, name=None, default=None):
             if i is not None and i < len(args):
